@@ -29,16 +29,30 @@ def imP : P (Option IM) := do
 def handleHist (inp out : List String) : String :=
   let pin : P (List Geom × List Call) := do
     let gs ← counted geometry; let cs ← counted callP; pure (gs, cs)
-  let pairP : P (Option IM × Option IM) := do let a ← imP; let b ← imP; pure (a, b)
+  -- per call: prepared-path matrix, plain matrix, `<cache digest before>:<after>` of the prepared
+  -- operands' caches, `<digest of the graphs they hand out>:<digest of the fresh self-noded graphs>`
+  let digestP : P Bool := do
+    let t ← tok
+    match t.splitOn ":" with
+    | [a, b] => pure (a == b && a != "panic")
+    | _ => fail
+  let pairP : P ((Option IM × Option IM) × (Bool × Bool)) := do
+    let a ← imP; let b ← imP; let c ← digestP; let d ← digestP; pure ((a, b), (c, d))
   match P.run pin inp, P.run (many pairP) out with
-  | some (gs, calls), some outPairs =>
+  | some (gs, calls), some outQuads =>
+    let outPairs := outQuads.map (·.1)
     let outs := outPairs.map (·.1)
     let plains := outPairs.map (·.2)
+    let cacheKept := outQuads.all (·.2.1)
+    let cloneFresh := outQuads.all (·.2.2)
     -- prepared == plain is demanded for every history, valid operands or not
     let firstMismatch := (outs.zip plains).findIdx? (fun (a, b) => a != b)
     if !gs.all inDomain then
       (match firstMismatch with
-       | none => reply true "PASS" ("calls=" ++ toString calls.length ++ " out-of-domain impl-vs-impl-only")
+       | none =>
+         if !cacheKept then reply true "FAIL:prepared-cache-changed" ("calls=" ++ toString calls.length ++ " out-of-domain")
+         else if !cloneFresh then reply true "FAIL:prepared-graph-differs-from-fresh-after-reuse" ("calls=" ++ toString calls.length ++ " out-of-domain")
+         else reply true "PASS" ("calls=" ++ toString calls.length ++ " out-of-domain impl-vs-impl-only")
        | some _ => reply true "FAIL:prepared-differs-from-plain" ("calls=" ++ toString calls.length ++ " out-of-domain"))
     else
     -- model: every geometry has a prepared form in the table; a call picks plain or prepared
@@ -53,6 +67,8 @@ def handleHist (inp out : List String) : String :=
       if outs.any Option.isNone then "FAIL:panic"
       else if outs.length != calls.length then "FAIL:missing-result"
       else if firstMismatch.isSome then "FAIL:prepared-differs-from-plain"
+      else if !cacheKept then "FAIL:prepared-cache-changed"
+      else if !cloneFresh then "FAIL:prepared-graph-differs-from-fresh-after-reuse"
       else match firstBad with
         | none => "PASS"
         | some k =>
